@@ -105,6 +105,13 @@ def load_variants():
     for meta in sorted(glob.glob(os.path.join(VERIF, "seeded", "*",
                                               "meta.json"))):
         m = json.load(open(meta))
+        if m.get("kind") == "benign":
+            out.append({"id": "seeded/" + os.path.basename(
+                            os.path.dirname(meta)), "kind": "benign",
+                        "patch": os.path.join(os.path.dirname(meta),
+                                              "patch.diff"),
+                        "expect": {p: [] for p in m.get("expected_silent", [])}})
+            continue
         exp = m.get("expected_detection") or {}
         if not exp:
             continue
